@@ -42,7 +42,15 @@ OWN = {
 }
 OWN["escape"] = 'taskreport zzz_esc "../zzz_escaped" {\n  formats json, csv\n  columns id, effort\n}\n'
 OWN["badname"] = 'taskreport zzz_bad "zzz:bad" {\n  formats csv\n  columns id\n}\n'
+OWN["subdir"] = ('taskreport zzz_sub "weekly/zzz_own" {\n  formats json, csv\n  columns id, effort\n'
+                 '  taskreport zzz_deep "weekly/detail/zzz_tasks" {\n    formats csv\n    columns id\n  }\n}\n')
 TASK_IDS = ["a", "c", "c.b", "c.m", "c.d"]
+# tasks that cannot be scheduled: no allocation; a dependency loop
+PARTIAL = 'task u "u" { effort 2h }\ntask v "v" { effort 2h allocate r0 depends !w }\ntask w "w" { effort 2h allocate r0 depends !v }\n'
+
+
+def ids_for(sit):
+    return TASK_IDS + (["u", "v", "w"] if sit["input"] == "partial" else [])
 
 
 LIBEXIT = 'taskreport refused "out:put" {\n  formats csv\n  columns id\n}\n'   # ':' in a report file name: the library calls sys.exit
@@ -53,6 +61,8 @@ def text_for(sit):
     i = sit["input"]
     if i == "ok":
         return BASE + OWN[sit["own"]]
+    if i == "partial":
+        return BASE + PARTIAL + OWN[sit["own"]]
     if i == "crlf":
         return (BASE + OWN[sit["own"]]).replace("\n", "\r\n")
     if i == "libexit":
@@ -152,7 +162,7 @@ def classify(sit, obs):
         ids = [r.get("id") for r in d["data"]]
         detail["ids"] = ids
         detail["rows"] = [[r.get("id"), r.get("start"), r.get("end")] for r in d["data"]]
-        if ids != TASK_IDS or not detail["report_id_ok"]:
+        if ids != ids_for(sit) or not detail["report_id_ok"]:
             return "foreign", detail
         return "auto", detail
     lines = out.decode().strip().splitlines()
@@ -162,7 +172,7 @@ def classify(sit, obs):
     rows = [l.split(",") for l in lines[1:]]
     detail["rows"] = rows
     detail["ids"] = [r[0] for r in rows]
-    if detail["ids"] != TASK_IDS:
+    if detail["ids"] != ids_for(sit):
         return "foreign", detail
     return "auto", detail
 
@@ -306,6 +316,9 @@ CONC_SITS = [
     {"input": "ok", "channel": "stdin", "format": "csv", "own": "none", "out": "baddir"},
     {"input": "ok", "channel": "path", "format": "json", "own": "escape"},
     {"input": "ok", "channel": "stdin", "format": "csv", "own": "badname"},
+    {"input": "ok", "channel": "path", "format": "csv", "own": "subdir"},
+    {"input": "partial", "channel": "stdin", "format": "json", "own": "subdir"},
+    {"input": "partial", "channel": "path", "format": "csv", "own": "none"},
 ]
 
 
